@@ -15,6 +15,10 @@ type PathMatchExpression struct {
 	// when true, a candidate that is an ancestor of a selected path matches too. This
 	// is what selecting fields needs in order to reach the selected paths at all.
 	matchAncestors bool
+
+	// when true, a candidate deeper than a selected path does not match. Otherwise
+	// everything below a selected path matches.
+	matchExact bool
 }
 
 // a single, denormalized list of idents after parsing expression
@@ -198,6 +202,8 @@ func (e *PathMatchExpression) match(segs segments, base *Path, candidate *Path) 
 			return false
 		}
 		segs = segs[:j+1]
+	} else if e.matchExact && j > len(segs)-1 {
+		return false
 	}
 
 	// start navigation at the end of the tail as it would likely be more efficient the longer
